@@ -14,6 +14,7 @@ import (
 	"reflect"
 	"slices"
 	"strings"
+	"sync"
 	"testing"
 )
 
@@ -249,17 +250,41 @@ func TestVFGgufReplay(t *testing.T) {
 	w := bufio.NewWriterSize(out, 1<<20)
 	defer w.Flush()
 	enc := json.NewEncoder(w)
-	dir := t.TempDir()
 	sc := bufio.NewScanner(in)
 	sc.Buffer(make([]byte, 1<<20), 1<<26)
-	n := 0
+	var cases []vfGgufCase
 	for sc.Scan() {
 		var c vfGgufCase
 		if err := json.Unmarshal(sc.Bytes(), &c); err != nil {
 			t.Fatalf("bad case: %v", err)
 		}
-		enc.Encode(vfGgufRun(dir, c))
-		n++
+		cases = append(cases, c)
 	}
-	fmt.Printf("VF replayed=%d\n", n)
+	// cases are independent: run them on several goroutines (each with its own file), which
+	// also exercises concurrent encodes/decodes the way concurrent API requests would
+	workers := 8
+	if v := os.Getenv("VF_WORKERS"); v != "" {
+		fmt.Sscan(v, &workers)
+	}
+	recs := make([]map[string]any, len(cases))
+	var wg sync.WaitGroup
+	for wk := 0; wk < workers; wk++ {
+		wg.Add(1)
+		go func(wk int) {
+			defer wg.Done()
+			dir, err := os.MkdirTemp("", "vfgguf")
+			if err != nil {
+				panic(err)
+			}
+			defer os.RemoveAll(dir)
+			for i := wk; i < len(cases); i += workers {
+				recs[i] = vfGgufRun(dir, cases[i])
+			}
+		}(wk)
+	}
+	wg.Wait()
+	for _, r := range recs {
+		enc.Encode(r)
+	}
+	fmt.Printf("VF replayed=%d\n", len(cases))
 }
